@@ -60,7 +60,7 @@ func genC13(seed uint64, index int, tier string) *run.Plan {
 	}
 	for s := 0; s < ns; s++ {
 		p.P[fmt.Sprintf("s%d_rtt_us", s)] = []int{200, 1000, 5000, 20000, 80000}[g.Intn(5)] + 13*s + 4*g.Intn(23)
-		p.P[fmt.Sprintf("s%d_lag_ms", s)] = []int{0, 0, 30, p.P["block_ms"], p.P["block_ms"]*2 + 50, p.P["block_ms"] * 3}[g.Intn(6)]
+		p.P[fmt.Sprintf("s%d_lag_ms", s)] = []int{0, 0, 30, p.P["block_ms"] / 2, p.P["block_ms"], p.P["block_ms"], p.P["block_ms"]*2 + 50, p.P["block_ms"] * 3}[g.Intn(8)]
 		if g.Intn(4) == 0 { // freeze window, followed by a catch-up burst
 			a := g.Intn(p.P["blocks"] * p.P["block_ms"])
 			p.Faults = append(p.Faults, run.Fault{Kind: "freeze", Host: s, AtMs: a, A: []int{1, 3, 6, 12}[g.Intn(4)] * p.P["block_ms"]})
@@ -68,7 +68,7 @@ func genC13(seed uint64, index int, tier string) *run.Plan {
 	}
 	total := p.P["blocks"] * p.P["block_ms"]
 	pauseAt := -1
-	if g.Intn(3) == 0 {
+	if g.Intn(5) < 2 {
 		p.P["pause_blk"] = 1 + g.Intn(p.P["blocks"])
 		p.P["pause_ms"] = []int{8000, 20000, 45000}[g.Intn(3)] + 137 + 2*g.Intn(40)
 		pauseAt = p.P["pause_blk"] * p.P["block_ms"]
@@ -139,7 +139,7 @@ func genC13(seed uint64, index int, tier string) *run.Plan {
 	}
 	if g.Intn(2) == 0 {
 		n := 1 + g.Intn(3)
-		if ns > 1 && g.Intn(3) == 0 {
+		if ns > 1 && g.Intn(3) != 0 {
 			// a uniformly slow Run loop: every notification (or refresh) is late by a few milliseconds, so the head
 			// updates of several connections pile up in the queue
 			p.Stalls = append(p.Stalls, core.Stall{Role: "(*ConnPool).Run", Site: []string{"(*ConnPool).notifySubscribers", "(*ConnPool).notifySubscribers", "(*ConnPool).updateBest"}[g.Intn(3)], Nth: 1 + g.Intn(3), Every: 1, DelayMs: []int{1, 7, 40, 150}[g.Intn(4)]})
@@ -180,6 +180,7 @@ type c13op struct {
 	reachedAt time.Duration
 	reached   bool
 	ownHead   uint32        // best: head of the returned client's own connection when the call returned
+	absSeq    uint32        // reactive waits: the target itself
 	subAt     time.Duration // instant at which subscribe released the pool's write lock (-1: it never took it)
 }
 
@@ -326,6 +327,9 @@ func execC13(t *testing.T, w *core.World, p *run.Plan, r *run.Result) {
 	tReady := w.Now()
 	setPCT(w, p)
 
+	var ops []*c13op
+	var doOp func(o *c13op)
+	reactiveN := 0
 	// ---- refresh judging ----
 	type refresh struct {
 		gid    uint64
@@ -466,13 +470,35 @@ func execC13(t *testing.T, w *core.World, p *run.Plan, r *run.Result) {
 		}
 		if after.BestID != b.BestID {
 			w.Probe("best-switched")
+			// reactive workload: the refresh moved to a connection that is behind the newest known head - right now
+			// somebody waits for that newest head with a timeout just above one block interval (a wake-up the new
+			// best connection owes within that interval must not depend on the block after it)
+			var nbHead uint32
+			for _, c := range after.Conns {
+				if c.ID == after.BestID {
+					nbHead = c.HeadSeqno
+				}
+			}
+			if nbHead > 0 && nbHead < maxHead && reactiveN < 3 && !p.Free {
+				reactiveN++
+				w.Probe("reactive-wait-after-switch-to-lagging-connection")
+				o := &c13op{op: run.Op{Kind: "wait", Caller: 90 + reactiveN, B: blockMs + blockMs/10 + 3}, caller: 90 + reactiveN, connID: -1, absSeq: maxHead}
+				mu.Lock()
+				ops = append(ops, o)
+				mu.Unlock()
+				w.At(0, fmt.Sprintf("reactive wait %d", reactiveN), func() {
+					go func() {
+						w.Tag(fmt.Sprintf("caller-%02d", o.caller))
+						doOp(o)
+					}()
+				})
+			}
 			if b.Waiters > 0 {
 				w.Probe("best-switched-with-waiter-subscribed")
 			}
 		}
 	}
 
-	var ops []*c13op
 	lastHeads := map[int]uint32{}
 	prevBest, prevBestHead, prevStep := -1, uint32(0), -1
 	badSince, l4Reported := time.Duration(-1), false
@@ -710,7 +736,7 @@ func execC13(t *testing.T, w *core.World, p *run.Plan, r *run.Result) {
 		callerIDs = append(callerIDs, c)
 	}
 	sort.Ints(callerIDs)
-	doOp := func(o *c13op) {
+	doOp = func(o *c13op) {
 		defer func() {
 			if x := recover(); x != nil {
 				mu.Lock()
@@ -726,6 +752,9 @@ func execC13(t *testing.T, w *core.World, p *run.Plan, r *run.Result) {
 		o.started, o.start, o.callStep = true, w.Now(), w.StepNow()
 		if o.op.Kind == "wait" {
 			o.seqno = uint32(int(globalHead) + o.op.A)
+			if o.absSeq > 0 {
+				o.seqno = o.absSeq
+			}
 			// sub-microsecond offsets: every other instant of the simulation is a whole number of microseconds, so the
 			// call's own timer never fires at the very instant a notification arrives (Go's select would flip an
 			// unseedable coin between the two ready cases)
@@ -1013,7 +1042,7 @@ func execC13(t *testing.T, w *core.World, p *run.Plan, r *run.Result) {
 				if pauseBlk > 0 && pauseBlk < nblocks && from+need > blockAt(pauseBlk) && from < blockAt(pauseBlk+1) {
 					flowing = false
 				}
-				if calm && infoUsable && o.op.A <= 1 && o.caller != 99 && o.cancelAt == 0 && tb <= nblocks && flowing &&
+				if calm && infoUsable && o.op.A <= 1 && o.caller < 90 && o.cancelAt == 0 && tb <= nblocks && flowing &&
 					from+need <= o.start+o.timeout {
 					w.Violate("C13.W3", "C13.W3|missed-head", fmt.Sprintf("calm run: %s for seqno %d (best head + %d) with timeout %v returned %q", name, o.seqno, o.op.A, o.timeout, o.err))
 				}
@@ -1214,9 +1243,9 @@ func maxLag(p *run.Plan, ns int) int {
 func init() {
 	run.Register(&run.Engine{ID: "C13", Gen: genC13, Exec: execC13, Meta: run.Meta{
 		Technique:   "deterministic simulation with fault injection: real liteapi/pool over real liteclient stacks against 1-4 simulated lite servers with independent chains, round-trip times and liveness; seeded driver owns locks, network, servers, clock; refreshes judged exactly from the pool's own view; porcupine for the per-connection head register; free-running -race mode",
-		Rule:        "one run = 1-4 servers (RTT, lag, freeze+catch-up bursts, close/reset/black-hole/refused dials/missing pongs), strategy best-ping or first-working, 1-2 workers per connection, sync or async initialisation, through liteapi.NewClient or the pool API, 10-40 (quick) / 10-60 (thorough) blocks at 0.4-5 s; 1-5 (8) callers with 1-5 ops: WaitMasterchainSeqno(head+k, k=-1..5, timeouts around the block interval, contexts cancelled at drawn instants), BestMasterchainClient, BestMasterchainInfoClient().LiteServerGetMasterchainInfo, Status/ConnectionsNumber; 0-3 stalls at (role, lock site) biased to (waiter, unsubscribe). A refresh is judged iff the driver granted nothing else between the grant of the pool's write lock to updateBest and its release (forced for 2/3 of refreshes). Non-trivial = every run (several goroutines always interleave); distinct = event-log digest. Abstract states = pool view at quiescent points (best id, waiters, queued updates, per connection alive/head lag) plus the judged selection-grid cells (alive, head-max clipped, RTT rank, current best).",
+		Rule:        "one run = 1-4 servers (RTT, lag, freeze+catch-up bursts, close/reset/black-hole/refused dials/missing pongs), strategy best-ping or first-working, 1-2 workers per connection, sync or async initialisation, through liteapi.NewClient or the pool API, 10-40 (quick) / 10-60 (thorough) blocks at 0.4-5 s, in 2/5 of runs with one pause of 8-45 s in block production; round-trip times that change for good (1-3 shifts in half of the multi-server runs), servers that go down for 2-40 s (connections reset, dials refused); 1-5 (8) callers with 1-5 ops: WaitMasterchainSeqno(head+k, k=-1..5, timeouts around the block interval, contexts cancelled at drawn instants), BestMasterchainClient, BestMasterchainInfoClient().LiteServerGetMasterchainInfo, Status/ConnectionsNumber; in half of the runs a poller (Wait for head+0/1 with a timeout around the block interval, up to 40 times); 0-3 stalls at (role, lock site) biased to (waiter, unsubscribe), and in 2/9 of the multi-server runs a uniformly slow Run loop (every notification or refresh late by 1-150 ms). A refresh is judged iff the driver granted nothing else between the grant of the pool's write lock to updateBest and its release (forced for 2/3 of refreshes). Non-trivial = every run (several goroutines always interleave); distinct = event-log digest. Abstract states = pool view at quiescent points (best id, waiters, queued updates, per connection alive/head lag) plus the judged selection-grid cells (alive, head-max clipped, RTT rank, current best).",
 		Real:        []string{"liteapi.NewClient (option handling, pool wiring)", "pool.ConnPool: InitializeConnections, Run, updateBest, findBestPingConnection, findFirstWorkingConnection, subscribe/unsubscribe/notifySubscribers, WaitMasterchainSeqno, BestMasterchainClient, BestMasterchainInfoClient, Status", "pool.connection: Run (GetMasterchainInfo / WaitMasterchainBlock loop), SetMasterHead", "liteclient.Client / Connection / encryptedConn underneath"},
 		Simulated:   []string{"lite servers and their chains (litesrv)", "TCP (simnet)", "clock (testing/synctest)", "randomness (seeded)", "goroutine interleaving at mutex acquisitions (controlled mode)"},
-		Assumptions: []string{"selection is judged on the pool's own view at the instant of the refresh (SimSnapshot under tag verif), which is the property as stated", "W1 is checked against the heads the simulated servers ever reported (ground truth), W2 exactly only in stall-free runs", "W3 (completeness) only in calm runs with a timeout far above block interval + refresh period + lag", "the head register is checked with porcupine on at most 400 operations per run; Unknown (timeout) is ignored"},
+		Assumptions: []string{"selection is judged on the pool's own view at the instant of the refresh (SimSnapshot under tag verif), which is the property as stated", "W1 is checked against the heads the simulated servers ever reported (ground truth), W2 exactly only in stall-free runs", "W3 (completeness) only in calm runs with a timeout far above block interval + refresh period + lag", "the head register is checked directly (a read is explained by an earlier write, not older than a completed write, monotone) and with porcupine on the writes that some read returned, at most 400 operations per run", "W5 excuses a missed head only if a stall of a pool-side goroutine was in force during the last millisecond before the call's deadline", "W3 needs heads to flow: no held masterchain info, no pause of block production within two intervals + 20 s + lag of the later of call start and target block"},
 	}})
 }
